@@ -577,6 +577,13 @@ impl OptimizedDictionaryCompressor {
         max_match_length: usize,
         window_size: usize,
     ) -> Result<Self> {
+        // Patterns of length 0 cannot be indexed (the expected pattern count divides by the length)
+        if min_match_length == 0 {
+            return Err(ZiporaError::invalid_parameter(
+                "min_match_length must be at least 1",
+            ));
+        }
+
         // Build suffix array for fast pattern search
         let suffix_array = SuffixArray::new(data)?;
 
